@@ -56,8 +56,11 @@ def gen_case(rng, maxlen=12, simple=None):
             t = rng.choice("ttn")
             ops.append(f"q{k}{m}{t}")
             issued.append(k)
-        elif r < 0.48:
+        elif r < 0.44:
             ops.append(f"m{nm % 10}")
+            nm += 1
+        elif r < 0.48:
+            ops.append(f"a{nm % 10}")
             nm += 1
         elif r < 0.72 and issued:
             k = rng.choice(issued)
@@ -77,6 +80,8 @@ def gen_case(rng, maxlen=12, simple=None):
             nm += 1
     to = " to=g" if rng.random() < 0.4 else ""
     who = "who=g " if rng.random() < 0.4 else ""
+    if who:
+        ops = [("m" + o[1:]) if o[0] == "a" else o for o in ops]  # peer requests are tied for the actor requester only
     return f"{who}mode={mode} max={mx}{to} | " + " ".join(ops)
 
 
